@@ -7,8 +7,10 @@ import (
 	"fmt"
 	"hash/crc32"
 	"net"
+	"reflect"
 	"strings"
 	"testing"
+	"unsafe"
 
 	"github.com/panjf2000/gnet/v2/internal/verifmc/seqmc"
 )
@@ -220,6 +222,42 @@ func TestMC_C15(t *testing.T) {
 			}
 		}
 		distinct++
+	}
+
+	// Round-Robin from non-initial states: the cursor is a free-running counter, so the history
+	// "2^16 / 2^31 / 2^32 accepts ago" is one assignment away. The order must stay cyclic across
+	// these values for every N, powers of two or not (a 32-bit cursor wraps after 4e9 accepts: days
+	// of traffic; 2^64 is out of reach and not tried).
+	for _, n := range []int{2, 3, 5, 6, 7, 10, 12, 100, 255, 256} {
+		for _, bits := range []uint{16, 31, 32} {
+			lb := new(roundRobinLoadBalancer)
+			els := c15Loops(lb, n)
+			f := reflect.ValueOf(lb).Elem().FieldByName("nextIndex")
+			if !f.IsValid() || f.Kind() < reflect.Uint || f.Kind() > reflect.Uint64 {
+				continue // the cursor has been renamed or retyped beyond recognition: the fresh-cursor pass above still applies
+			}
+			start := uint64(1)<<bits - uint64(n) - 3
+			reflect.NewAt(f.Type(), unsafe.Pointer(f.UnsafeAddr())).Elem().SetUint(start)
+			prev := -1
+			for j := 0; j < 2*n+6; j++ {
+				el, p := safeNext(lb, nil)
+				evals++
+				if p != "" {
+					add("rr:panic", fmt.Sprintf("round-robin next() panicked with %d loops after %d accepts: %s", n, start+uint64(j), p), n)
+					break
+				}
+				i := indexOf(els, el)
+				if i < 0 {
+					add("rr:foreign", fmt.Sprintf("round-robin returned an unregistered loop (N=%d)", n), n)
+					break
+				}
+				if prev >= 0 && i != (prev+1)%n {
+					add("rr:order-history", fmt.Sprintf("round-robin with %d loops: around accept number 2^%d (cursor %d) loop %d followed loop %d", n, bits, start+uint64(j), i, prev), n, int(bits))
+				}
+				prev = i
+			}
+			distinct++
+		}
 	}
 
 	// Least-Connections: BFS over accept/close sequences
